@@ -9,19 +9,28 @@ from mc.gen import detspaces
 PROP = "C01"
 
 
-def items(tier: str) -> List[Any]:
-    out = list(detspaces.detector_spaces(tier))
-    # G1: raw layouts without any check (callsub last, retsub, dead code, ...): whatever accepts is dangerous
-    from mc.gen import raw  # pylint: disable=import-outside-toplevel
+def items(tier: str) -> Any:
+    from mc.gen import raw, spaces  # pylint: disable=import-outside-toplevel
 
+    have = set()
+    direct: List[str] = []
+    for it in detspaces.detector_spaces(tier):
+        have.add(it[2])
+        if it[1] == "direct" and (tier == "quick" or len(direct) < 400000):
+            direct.append(it[2])
+        yield it
+    for s in spaces.unresolvable_constants(direct, 4000 if tier == "quick" else 20000):
+        if s not in have:
+            have.add(s)
+            yield ("rekey-to", "shuffle", s)
+    # G1: raw layouts without any check (callsub last, retsub, dead code, ...): whatever accepts is dangerous
     seen = set()
     gens = [raw.space(4, 2), raw.programs(5, 2, raw.PLAIN_SMALL)] if tier == "quick" else [raw.space(5, 2), raw.programs(6, 2, raw.PLAIN_SMALL)]
     for gen in gens:
         for s in gen:
             if s not in seen:
                 seen.add(s)
-                out.append(("rekey-to", "raw", s))
-    return out
+                yield ("rekey-to", "raw", s)
 
 
 def worker_init() -> None:
@@ -88,11 +97,11 @@ def attribute(entry: Any, v: Any) -> bool:
 def main(argv: List[str]) -> int:
     tier, seed = runner.tier_and_seed(argv)
     t0 = time.time()
-    its = runner.rotate(items(tier), seed)
+    its, _ = runner.work_list(items, tier, seed)
     total = runner.execute("mc.checks.c01", "worker", its, chunk=40)
     c = total.counters
     cov = {
-        "programs": len(its),
+        "programs": c.get("items", 0),
         "states": c.get("states", 0),
         "transitions": c.get("transitions", 0),
         "traces_validated_against_impl": c.get("detector_runs", 0),
